@@ -53,7 +53,7 @@ void SelectLoop::runLoop(Mode mode)
         auto wait_ms = getWaitTime();
         if (wait_ms != -1) {
             tv.tv_sec = wait_ms / 1000;
-            tv.tv_usec = wait_ms % 1000;
+            tv.tv_usec = (wait_ms % 1000) * 1000;   //! 毫秒转微秒
             p_tv = &tv;
         }
 
